@@ -142,7 +142,8 @@ def _mol_pre(eng, fr):
     pass
 
 
-UNITS += [molecule_unit(2, 1), molecule_unit(3, 1), molecule_unit(2, 2), molecule_unit(3, 1, order=(2, 0, 1)),
+UNITS += [molecule_unit(1, 2),      # a molecule of one fragment: nothing to vote on, N calls still absent
+          molecule_unit(2, 1), molecule_unit(3, 1), molecule_unit(2, 2), molecule_unit(3, 1, order=(2, 0, 1)),
           molecule_unit(2, 1, duplicate=True),
           # four fragments: the smallest molecule with a plurality that is not an absolute majority (2:1:1)
           molecule_unit(4, 1),
@@ -174,10 +175,13 @@ def molecule_replay(order, duplicate, probs=False):
 
         class Mol:
             def __init__(self, frags):
-                self.frags = frags
+                self.frags = self.fragments = frags
 
             def __iter__(self):
                 return iter(self.frags)
+
+            def __len__(self):
+                return len(self.frags)
         idx = list(order) if order else list(range(len(calls)))
         if duplicate:
             idx = idx + idx
